@@ -4,7 +4,9 @@
 (*          (vkind = "host" | "url": what a returned text is - the host, or a URL built from it) *)
 (*          r : [kind : "bool" | "value" | "exc", b, v, exc, code]]                          *)
 (*         one call of host_is_trusted / sansio get_host / wsgi get_host / Request.host      *)
-(*  dcfg : [t, op, evalex, pin_on, trusted]            a fresh DebuggedApplication           *)
+(*  dcfg : [t, op, evalex, pin_on, pin, trusted]       a fresh DebuggedApplication (pin "A") *)
+(*  set  : [t, i, op, evalex, pin_on, pin, trusted]    its configuration after an assignment *)
+(*         to the public attributes pin / evalex / trusted_hosts of the live application     *)
 (*  req  : [t, i, op, cmd, secret, host, hpresent, tab, cookie, frame, pin,                  *)
 (*          o : [eval_ran, console, cookie_set, pin_logged, exhausted, app_called, auth,     *)
 (*               status],  crash, cnt, rtrust, has_exp, exp, exp_cnt]                        *)
@@ -60,7 +62,7 @@ HV(ln, c) == IF ~ln.hpresent THEN "U"
 
 Q(ln, c) == [cmd |-> ln.cmd, secret |-> ln.secret, hv |-> HV(ln, c), cookie |-> ln.cookie,
              frame |-> ln.frame, pin |-> ln.pin]
-C(c) == [evalex |-> c.evalex, pin_on |-> c.pin_on]
+C(c) == [evalex |-> c.evalex, pin_on |-> c.pin_on, pin |-> c.pin]
 
 WellFormedReq(ln) == /\ ln.cmd \in Cmds /\ ln.secret \in Secrets /\ ln.cookie \in Cookies
                      /\ ln.frame \in Frames /\ ln.pin \in Pins
@@ -80,6 +82,9 @@ Next ==
             /\ Reject(ln, HostClause(ln))
        [] ln.op = "dcfg" ->
             /\ cfg' = ln /\ fails' = 0 /\ mcnt' = 0
+       [] ln.op = "set" /\ cfg.op = "dcfg" ->      \* app.pin = .. / app.evalex = .. / app.trusted_hosts = ..
+            /\ cfg' = [cfg EXCEPT !.evalex = ln.evalex, !.pin_on = ln.pin_on, !.pin = ln.pin, !.trusted = ln.trusted]
+            /\ UNCHANGED <<fails, mcnt>>          \* the failure count and the lock-out survive a reconfiguration
        [] ln.op = "req" /\ cfg.op = "dcfg" ->
             IF ~WellFormedReq(ln) THEN UNCHANGED <<cfg, fails, mcnt>> /\ Reject(ln, "MalformedTraceLine")
             ELSE LET q == Q(ln, cfg)  c == C(cfg)
